@@ -228,7 +228,7 @@ func (api *API) mapEncodeStruct(
 	if ts.ObjectType() != nil {
 		obj.Set(keyType, ts.ObjectType())
 	}
-	if err := api.mapEncodeStructFields(ctx, obj, value, valueType, opts); err != nil {
+	if err := api.mapEncodeStructFields(ctx, obj, value, valueType, usedKeys, opts); err != nil {
 		return nil, ierrors.WithStack(err)
 	}
 
@@ -236,7 +236,7 @@ func (api *API) mapEncodeStruct(
 }
 
 func (api *API) mapEncodeStructFields(
-	ctx context.Context, obj *orderedmap.OrderedMap, value reflect.Value, valueType reflect.Type, opts *options,
+	ctx context.Context, obj *orderedmap.OrderedMap, value reflect.Value, valueType reflect.Type, keysOfType map[string]struct{}, opts *options,
 ) error {
 	structFields, err := api.getStructFields(valueType)
 	if err != nil {
@@ -256,7 +256,7 @@ func (api *API) mapEncodeStructFields(
 				fieldValue = fieldValue.Elem()
 				fieldType = fieldType.Elem()
 			}
-			if err := api.mapEncodeStructFields(ctx, obj, fieldValue, fieldType, opts); err != nil {
+			if err := api.mapEncodeStructFields(ctx, obj, fieldValue, fieldType, keysOfType, opts); err != nil {
 				return ierrors.Wrapf(err, "can't serialize embedded struct %s", sField.name)
 			}
 
@@ -290,6 +290,13 @@ func (api *API) mapEncodeStructFields(
 			}
 
 			for _, k := range castedEleOut.Keys() {
+				// what an inlined interface contributes depends on its implementation: its keys must not be keys of the
+				// other members of the struct (see collectStructKeys), whether those are written this time or not
+				if _, occupied := keysOfType[k]; occupied && DeRefPointer(sField.fType).Kind() == reflect.Interface {
+					err = ierrors.Errorf("key %q is used more than once in the map form of the struct", k)
+
+					break
+				}
 				if err = setUniqueKey(obj, k, lo.Return1(castedEleOut.Get(k))); err != nil {
 					break
 				}
